@@ -38,7 +38,8 @@ def run(ctx):
     t4, r4 = lc.run_sharded(ctx, "c03", h2_cases, shards=8 if q else 14, extra_args=["-proto", "http2"], tag="_h2")
     ctx.cov["protocols"] = {"http1": len(results), "bolt": len(r2), "bolt-oneway": len(r3), "http2": len(r4)}
     traces, results = traces + t2 + t3 + t4, results + r2 + r3 + r4
-    lc.validate(ctx, "C03", traces, results, kinds_for_property=None, sigfn=lc.lifecycle_sig)
+    lc.validate(ctx, "C03", traces, results, kinds_for_property=None, sigfn=lc.lifecycle_sig,
+                ignore_kinds=lc.RESOURCE_KINDS[:3])   # the clusters' breaker books at quiesce are C10's to judge
     ctx.cov["exhaustive"] = not q
     ctx.cov["rule"] = ("one case = (cluster shape, per-arrival upstream script, per-try timeout on/off, gate point held, event forced "
                        "to happen meanwhile) from Scenarios.tla (%d feasible cases); each realised once on the in-process MOSN over "
